@@ -333,7 +333,7 @@ class C14(Spec):
     prop = "C14"
     coq_targets = ["Props/C14.vo"]
     prop_module = "Props.C14"
-    theorems = ["C14_lex_total_partial", "C14_parse_total_partial", "C14_safe_means", "C14_refuted_to_rust_unbounded_recursion_on_recursive_untagged_type",
+    theorems = ["C14_lex_total_partial", "C14_parse_total_partial", "C14_safe_means", "C14_parse_total", "C14_parse_total_default_fuel", "C14_error_carries_token", "C14_lex_parse_total", "C14_literal_panics_unreachable", "C14_fuel_length_plus_1_insufficient", "C14_invalid_literal_token_is_synthesised", "C14_refuted_to_rust_unbounded_recursion_on_recursive_untagged_type",
                 "C14_refuted_resolver_unbounded_recursion_on_cyclic_import"]
     MODEL_OPS = {3303}
     builds = [("default", "dev"), ("default", "release"), ("protobuf", "dev")]
